@@ -40,6 +40,8 @@ MODGLOBALS = ["TagLibrary", "itemize", "DuplicateTagError", "TagNotFoundError", 
               "get_tag_name", "__name__", "__getattr__"]
 BUILTINS = ["super", "enumerate", "hasattr", "globals", "len", "list", "print", "type", "int", "str", "range", "isinstance"]
 ARBITRARY = ["", " ", "two words", "9lives", "naïve", "a.b", "SHEEP\n", "None", "none",
+             # names that merely LOOK like the library's own bookkeeping entries / like private or dunder names
+             "_tag_wolf", "_tag_", "_tags", "_hidden", "__wolf", "_", "__", "tag_names", "_tag_counter2",
              # text that means something to str.format / %-formatting / templates (error messages quote the name)
              "{x}", "{}", "{0}", "a{b", "}{", "{{a}}", "{0!r:>10}", "%s", "%(x)s", "100%", "%d%%", "${HOME}", "\\", "'q'", "tab\there"]
 PLAIN = ["SHEEP", "WOLF", "GRASS", "PREY", "A", "B", "C", "tag_1", "x"]
